@@ -315,7 +315,7 @@ impl Prop for C13 {
 
     fn gen(&self, seed: u64, run: u64, tier: Tier) -> Trace {
         let mut rng = Rng::new(mix(seed, "C13", run));
-        let deep = tier == Tier::Thorough && run % 4 == 3;
+        let deep = tier == Tier::Thorough && run % 16 == 15;
         // one tree per group of runs (bounded leak of real trees is irrelevant: model only here)
         let mut trng = Rng::new(mix(seed, "C13-tree", run / 64));
         let tree = gen_tree(&mut trng, true, 2, 3, 1);
